@@ -208,6 +208,9 @@ def run(ctx, rep):
 
     check_as_image(prog, rep, DATA)
     check_check_n(prog, rep)
+    # W10: the compile-time size guard really stops the build (compile_fail witnesses with building twins)
+    import witness
+    witness.check(rep, "W10", ["W10TooSmall", "W10Exact", "W10Oversized", "W10SubByteTooSmall", "W10SubByteExact"])
 
 
 def check_subbyte_bits(f, org, rep, key, bits, order, specialised):
